@@ -737,8 +737,20 @@ func genValue(t *rapid.T) ValueCase {
 			m := MemberC{Label: Q(genToken(t)), Params: []ParamC{}}
 			np := rapid.IntRange(0, 5).Draw(t, "nparams")
 			seen := map[string]bool{}
+			// parameter keys that differ LATE: a long common prefix, the last octet different, and the
+			// bare prefix among them (duplicate detection and sorting must look at the whole key)
+			lateLen := 0
+			if np >= 2 && rapid.IntRange(0, 9).Draw(t, "latekeys") == 0 {
+				lateLen = rapid.SampledFrom([]int{7, 8, 15, 16, 17, 31, 32, 33, 63, 64, 65, 255, 256, 1000}).Draw(t, "latekeylen")
+			}
 			for j := 0; j < np; j++ {
 				k := genKey(t)
+				if lateLen > 0 {
+					k = "k" + strings.Repeat("-", lateLen-1) + string(rune('a'+j))
+					if j == 1 {
+						k = "k" + strings.Repeat("-", lateLen-1)
+					}
+				}
 				if seen[k] {
 					k += strconv.Itoa(j) // still a valid key; keeps keys distinct
 				}
